@@ -85,7 +85,7 @@ def kernel_cases(ctx):
         if i % 5 == 0:
             pos[0] = -INF
         th.append([g.r.randint(0, m - 2), pos])
-    yield 'c15_get_thickness', th, {'arrays': ['self.positions']}
+    yield 'c15_get_thickness', th, {'arrays': ['self.positions'], 'plain_self': True}
     rg = []
     for i in range(n):
         m = g.r.randint(1, 8)
@@ -386,7 +386,10 @@ def coq_body(sc, r):
     L.append(f'Definition s0 := mkSt l0 sams0 ({fl(stream)} : list float).')
     traces = '[' + ';\n  '.join('[' + '; '.join(fl(x) for x in tr['trace']) + ']' for tr in r['trials']) + ']'
     L.append(f'Definition traces : list (list (list float)) := {traces}.')
-    fn = 'mc_run' if sc['analysis'] == 'mc' else 'sens_run'
+    # the model follows the declared state of the tree: once finding mc-no-final-reset is flipped to fixed
+    # (proposed_fixes/C15-mc-no-final-reset.diff applied) MonteCarlo.run is modelled by mc_run_fixed
+    mc_open = any(k['id'] == 'mc-no-final-reset' for k in vlib.load_known_findings(PROP))
+    fn = ('mc_run' if mc_open else 'mc_run_fixed') if sc['analysis'] == 'mc' else 'sens_run'
     L.append(f'Definition res := {fn} vg vs up evf drw pv cv traces s0.')
     # implementation data
     L.append('Definition i_states : list (list float) := [' + ';\n  '.join(fl(snap_vec(tr['snap'])) for tr in r['trials']) + '].')
@@ -507,8 +510,8 @@ def _plan_which(sc):
 
 
 def system_checks(ctx):
-    n = ctx.n(36, 400)
-    scs = scenarios(ctx, n)
+    n = ctx.n(40, 400)
+    scs = list(targeted().values()) + scenarios(ctx, n)
     try:
         res = run_impl(scs)
     except Exception as e:   # noqa
@@ -561,3 +564,159 @@ def system_checks(ctx):
         out['error'] = coq_err
     ctx._c15_cache = (scs, res)
     return [out]
+
+
+# --------------------------------------------------------------------------
+# targeted scenarios (one per listed finding; also part of every system check) and finding attribution
+# --------------------------------------------------------------------------
+def _lens(surfs, waves=((0.5876, True),), obj=INF):
+    for i, s in enumerate(surfs):
+        s.setdefault('type', 'standard')
+        s['is_stop'] = (i == 0)
+    return {'object_thickness': obj, 'surfaces': surfs, 'aperture': ['EPD', 8.0], 'field_type': 'angle',
+            'fields': [[0.0, 0.0, 0.0, 0.0]], 'wavelengths': [list(w) for w in waves], 'telecentric': False}
+
+
+_RMS = ['rms_spot_size', {'surface_number': -1, 'Hx': 0.0, 'Hy': 0.0, 'num_rays': 3, 'wavelength': 'all',
+                          'distribution': 'hexapolar'}]
+
+
+def targeted():
+    t = {}
+    t['mc-no-final-reset'] = {
+        'name': 't-mc', 'lens': _lens([{'radius': 60.0, 'thickness': 5.0, 'material': ['ideal', 1.5, 0.0]},
+                                       {'radius': -60.0, 'thickness': 90.0, 'material': 'air'}]),
+        'pickups': [], 'operands': [['f2', {}]], 'comps': [], 'method': 'generic', 'tol': 1e-5,
+        'perts': [{'type': 'radius', 'kw': {'surface_number': 1}, 'sampler': ['scalar', 65.0]}],
+        'analysis': 'mc', 'trials': 1, 'WS': [0.45, 0.5876, 0.7], 'check_repro': True}
+    t['index-reset-loses-dispersion'] = {
+        'name': 't-d23', 'lens': _lens([{'radius': 60.0, 'thickness': 5.0, 'material': ['glass', 'N-SF11', 'schott']},
+                                        {'radius': -60.0, 'thickness': 50.0, 'material': 'air'}],
+                                       waves=((0.4861, False), (0.5876, True), (0.6563, False))),
+        'pickups': [], 'operands': [['f2', {}], _RMS], 'comps': [], 'method': 'generic', 'tol': 1e-5,
+        'perts': [{'type': 'index', 'kw': {'surface_number': 1, 'wavelength': 0.5876}, 'sampler': ['range', 1.78, 1.79, 2]},
+                  {'type': 'thickness', 'kw': {'surface_number': 1}, 'sampler': ['range', 4.9, 5.1, 2]}],
+        'analysis': 'sens', 'trials': None, 'WS': [0.45, 0.4861, 0.5876, 0.6563, 0.7], 'check_repro': True}
+    t['plane-radius-reset'] = {
+        'name': 't-plane', 'lens': _lens([{'radius': INF, 'thickness': 5.0, 'material': ['ideal', 1.5, 0.0]},
+                                          {'radius': -50.0, 'thickness': 90.0, 'material': 'air'}]),
+        'pickups': [], 'operands': [['f2', {}], _RMS], 'comps': [], 'method': 'generic', 'tol': 1e-5,
+        'perts': [{'type': 'thickness', 'kw': {'surface_number': 1}, 'sampler': ['range', 4.9, 5.1, 2]},
+                  {'type': 'radius', 'kw': {'surface_number': 1}, 'sampler': ['range', 500.0, 1000.0, 2]}],
+        'analysis': 'sens', 'trials': None, 'WS': [0.45, 0.5876, 0.7], 'check_repro': True}
+    t['reset-skips-update'] = {
+        'name': 't-pickup', 'lens': _lens([{'radius': 60.0, 'thickness': 5.0, 'material': ['ideal', 1.5, 0.0]},
+                                           {'radius': -60.0, 'thickness': 90.0, 'material': 'air'}]),
+        'pickups': [[1, 'radius', 2, -1.0, 0.0]], 'operands': [['f2', {}]], 'method': 'generic', 'tol': 1e-5,
+        'comps': [{'type': 'thickness', 'kw': {'surface_number': 2}}],
+        'perts': [{'type': 'radius', 'kw': {'surface_number': 1}, 'sampler': ['range', 55.0, 65.0, 2]}],
+        'analysis': 'sens', 'trials': None, 'WS': [0.45, 0.5876, 0.7], 'check_repro': True}
+    return t
+
+
+def _surf_of(sc, i):
+    return sc['lens']['surfaces'][i - 1] if 1 <= i <= len(sc['lens']['surfaces']) else None
+
+
+def entry_rule(sc, entry):
+    """which listed-finding rule (if any) explains one differing (surface, field) of the final lens"""
+    i, field = entry
+    hs = sc['perts'] + sc['comps']
+    s = _surf_of(sc, i)
+    if field == 'med' and s is not None and isinstance(s['material'], list) and s['material'][0] == 'glass' \
+            and any(h['type'] == 'index' and h['kw']['surface_number'] == i for h in hs):
+        return 'index-reset-loses-dispersion'
+    if field == 'kind' and s is not None and s['radius'] == INF \
+            and any(h['type'] == 'radius' and h['kw']['surface_number'] == i for h in hs):
+        return 'plane-radius-reset'
+    if sc['pickups'] and sc['comps']:
+        for (src, attr, tgt, scale, off) in sc['pickups']:
+            if (attr == 'radius' and field == 'rad' and i == tgt) or (attr == 'conic' and field == 'con' and i == tgt) \
+                    or (attr == 'thickness' and field == 'z' and i > tgt):
+                return 'reset-skips-update'
+    return None
+
+
+VARIANT_TAG = {'d23': 'index-reset-loses-dispersion', 'plane': 'plane-radius-reset'}
+
+
+def witness_rules(w):
+    """set of finding ids that together explain the witness, or None if some part is unexplained"""
+    sc = w['scenario']
+    c = w.get('check')
+    if c == 'p_run_ends_nominal' and w.get('analysis') == 'mc':
+        return {'mc-no-final-reset'}
+    if c in ('p_run_ends_nominal', 'p_reset_restores'):
+        rules = set()
+        for e in w.get('diff') or [[None, None]]:
+            r = entry_rule(sc, e) if e[0] is not None else None
+            if r is None:
+                return None
+            rules.add(r)
+        return rules
+    if c in ('row_fresh', 'p_rows_fresh_state'):
+        ex = w.get('explained') or []
+        if w.get('state_only'):
+            rules = set()
+            for e in w.get('diff') or [[None, None]]:
+                r = entry_rule(sc, e) if e[0] is not None else None
+                if r is None:
+                    return None
+                rules.add(r)
+            return rules
+        rules = set()
+        for variant in ex:
+            if '?' in variant:
+                return None
+            rules |= {VARIANT_TAG[v] for v in variant}
+        return rules or None
+    return None
+
+
+def matches_finding(w, f):
+    rules = witness_rules(w)
+    if not rules:
+        return False
+    known = {k['id'] for k in vlib.load_known_findings(PROP)}
+    return f['id'] in rules and rules <= known
+
+
+def replay_finding(ctx, f):
+    sc = targeted().get(f['id'])
+    if sc is None:
+        return None
+    r = run_impl([sc])[0]
+    if 'error' in r:
+        return None
+    for w in python_level_checks(sc, r):
+        rules = witness_rules(w)
+        if rules and f['id'] in rules:
+            return True
+    return False
+
+
+def search(ctx, broken, disagreements):
+    """the property stated directly on the implementation (no Coq): seeded sweep of scenarios; every row is
+    re-evaluated on a freshly built nominal lens, the prescription after run()/reset() is compared with the nominal
+    one, seeded runs are repeated"""
+    scs = list(targeted().values()) + scenarios(ctx, ctx.n(40, 300), seed_off=104729)
+    res = run_impl(scs)
+    out = []
+    seen = set()
+    for sc, r in zip(scs, res):
+        if 'error' in r:
+            continue
+        for w in python_level_checks(sc, r):
+            rules = witness_rules(w)
+            key = (w['check'], tuple(sorted(rules)) if rules else ('unexplained', sc['name']))
+            if key in seen:
+                continue
+            seen.add(key)
+            out.append(w)
+    # unexplained witnesses first so that they are the ones reported
+    out.sort(key=lambda w: 0 if not witness_rules(w) else 1)
+    return out or None
+
+
+def broken_explained(b, known, witnesses):
+    return False
